@@ -5,6 +5,9 @@ import (
 	"encoding/hex"
 	"errors"
 	"math/big"
+	"os"
+	"os/exec"
+	"path/filepath"
 	"strings"
 	"testing"
 
@@ -444,4 +447,45 @@ func FuzzC20Wire(f *testing.F) {
 		}
 		st.Case(c, nt, classes)
 	})
+}
+
+// TestC20FuzzNative runs the native fuzzer from inside an ordinary test, so that the check driver (which only
+// knows -test.run) can use it in the thorough tier: it re-executes this test binary with -test.fuzz for
+// $VERIF_C20_FUZZTIME (default 120s in the thorough tier; skipped in the quick tier unless the variable is set).
+// The binary built by `go test -c` carries no coverage instrumentation, so this is mutation of the generated seed
+// corpus without coverage guidance (about 80 000 executions per second on 16 workers); see the package report for
+// the instrumented invocation.
+func TestC20FuzzNative(t *testing.T) {
+	dur := os.Getenv("VERIF_C20_FUZZTIME")
+	if dur == "" {
+		if os.Getenv("VERIF_TIER") != "thorough" {
+			t.Skip("native fuzzing runs in the thorough tier (or with VERIF_C20_FUZZTIME=60s)")
+		}
+		dur = "120s"
+	}
+	dir := pbt.OutDir()
+	cmd := exec.Command(os.Args[0], "-test.run", "^$", "-test.fuzz", "^FuzzC20Wire$", "-test.fuzztime", dur,
+		"-test.fuzzcachedir", filepath.Join(dir, "fuzzcache"), "-test.timeout", "0")
+	cmd.Dir = dir
+	cmd.Env = os.Environ()
+	out, err := cmd.CombinedOutput()
+	text := string(out)
+	if i := strings.Index(text, "VIOLATION-FILE"); i >= 0 {
+		end := i + 3000
+		if end > len(text) {
+			end = len(text)
+		}
+		t.Fatalf("%s", text[i:end])
+	}
+	if err != nil {
+		if len(text) > 3000 {
+			text = text[len(text)-3000:]
+		}
+		t.Fatalf("harness: native fuzzing did not run to completion: %v\n%s", err, text)
+	}
+	lines := strings.Split(strings.TrimSpace(text), "\n")
+	if len(lines) > 3 {
+		lines = lines[len(lines)-3:]
+	}
+	t.Log(strings.Join(lines, "\n"))
 }
